@@ -124,8 +124,16 @@ static blob mutate_page(hctx* h, blob base, char* desc, size_t dn) {
         if (hops-- <= 0 || off + hs + (size_t)ph.compressed_page_size >= end) break;
         off += hs + (size_t)ph.compressed_page_size;
     }
-    int which = (int)h_below(h, 14);
+    int which = (int)h_below(h, 17);
     long eof_delta = 0; int eof_directed = 0;
+    if (which >= 14) {
+        /* the page claims a few bytes more than its body holds and carries no checksum: a compressed stream followed by
+         * whatever comes next in the file (codecs that know where their stream ends see trailing bytes) */
+        static const int extra[] = { 1, 2, 5, 8, 13 };
+        ph.compressed_page_size += extra[h_below(h, 5)]; ph.has_crc = false;
+        snprintf(desc, dn, "page.compressed+%d.no-crc", (int)(ph.compressed_page_size));
+    }
+    else
     if (which >= 12) {
         /* boundary-directed at the guard "the page body lies inside the file": make the body end exactly at,
          * just before and just past the end of the FILE (not of the data region): offsets are taken relative
